@@ -1119,7 +1119,7 @@ func keepOrDefault(c *core.Ctx, f *types.Func) string {
 
 func init() {
 	register(&Rule{ID: "TB-DEFAULTS", Floor: 8,
-		Doc: "every assignment in config.SetDefaults is either boolDefault(<same path>, const) or guarded by a zero-value test of the same path; boolDefault returns its first argument when it is non-nil: defaulting never overwrites a set value",
+		Doc: "every assignment in config.SetDefaults (and in the sub-struct methods it delegates to) is either x = helper(x, const) — where the helper is shown on go/ssa to return its first argument whenever that is not nil / not the zero value and its second argument (or a pointer to it) otherwise — or guarded by a zero-value test of the same path: defaulting never overwrites a set value; a setting whose unset value selects a mode elsewhere gets its default only under a condition on the store type",
 		Run: func(c *core.Ctx) {
 			di := parseSetDefaults(c)
 			if di == nil {
@@ -1305,7 +1305,7 @@ func init() {
 		}})
 
 	register(&Rule{ID: "TB-FLAGS", Floor: 15,
-		Doc: "each serve flag is bound to an option field that flows into exactly the configuration path the documentation gives for the flag, no two flags share a path (addr/port excepted), and the flag's default equals both the documented default and the default SetDefaults applies to that path",
+		Doc: "each serve flag is bound to an option field that flows into exactly the configuration path the documentation gives for the flag (literal shapes on the typed AST, plus a value-flow pass over the command package on go/ssa: stores into fields, whole-struct loads, returns, arguments and writes through pointer parameters), no two flags share a path (addr/port excepted), and the flag's default equals both the documented default and the default SetDefaults applies to that path",
 		Run: runFlags})
 }
 
